@@ -22,7 +22,7 @@ RULE = ("cases: trees with 1-3 forever jobs per level. non-trivial: a successful
         "distinct scenario digest")
 ASSUMPTIONS = RT_ASSUMPTIONS
 
-PROFILE = S.GENERAL.but(p_cexc=15, p_forever=38, p_never=50, p_sched_forever=25, p_nested=24,
+PROFILE = S.GENERAL.but(p_rerun=8, p_cexc=15, p_forever=38, p_never=50, p_sched_forever=25, p_nested=24,
                         p_raise=10, p_critical=25, p_edge=32, p_wild=15,
                         timeouts=((None, 8), (2.5, 2), (3, 1), (4, 2), (4.5, 1), (6, 2), (8, 1)),
                         cs=((0, 3), (1, 3), (2, 2)),
@@ -87,6 +87,27 @@ def evaluate_one(case):
             else:
                 res.nontrivial = True
                 res.label('forever-job-ended-and-released-successor')
+    # "never outlive the run": once run() is over no body of a forever job (or of a job of a
+    # forever nested scheduler) is left unfinished in the loop
+    if ix.terminated():
+        def under_forever(who):
+            while who is not None and who in ix.specs:
+                if ix.specs[who].get('forever'):
+                    return True
+                parent = ix.parent.get(who)
+                who = parent['id'] if parent is not None else None
+            return False
+        left = [u for u in trace.unfinished if u['tkind'] == 'body' and under_forever(u['who'])]
+        if left:
+            res.fail('C09:forever-job-outlives-the-run',
+                     "after run() was over the loop still holds the unfinished body task(s) of "
+                     "%s" % (left[:4],), context(ix))
+    # "until then forever jobs start under the same requirement and window rules as any job":
+    # the eager-start oracle of C12, restricted to forever members
+    from . import c12
+    if c12.oracle(case, trace, ix, res, prefix='C09:forever-job',
+                  focus=lambda sid, mid: bool(ix.specs[mid]['forever'])):
+        res.label('forever-job-start-judged')
     for sp in ix.scheds():
         if sp['members'] and not ix.finite_members(sp['id']):
             res.label('outside:no-non-forever-member')
